@@ -204,6 +204,8 @@ def monitor(s, case, infos, rx):
         if not isinstance(s.exc, ynca.YncaInitializationFailedException):
             return f"initialize() raised {type(s.exc).__name__}: {s.exc}"
         dur = s.t_end - s.t_start
+        if gp.get("p_init_base", 0) <= 0 or gp.get("p_init_per_cmd", 0) <= 0:
+            return None  # the translator could not read the time-out expression (reported as a broken obligation): nothing to compare with
         if reply_line_idx is not None and ev[reply_line_idx]["t"] < s.t_start + timeout_us - 1000:
             return f"initialize() raised although the synchronisation reply arrived after {ev[reply_line_idx]['t'] - s.t_start} us (time-out {timeout_us} us)"
         if dur != timeout_us:
